@@ -32,11 +32,11 @@ type pairT struct {
 
 type pileCase struct {
 	Pairs  []pairT `json:"pairs"`
-	Perm   []int   `json:"perm"`   // second insertion order
-	Flip   []bool  `json:"flip"`   // second order: add the pair with A and B swapped
-	ReAdd  []int   `json:"readd"`  // indices of pairs re-added (must be rejected)
-	ReFlip []bool  `json:"reflip"` // re-add in swapped orientation
-	Filter int     `json:"filter"` // score threshold of the filter used in the second Piles call
+	Perm   []int   `json:"perm"`            // second insertion order
+	Flip   []bool  `json:"flip"`            // second order: add the pair with A and B swapped
+	ReAdd  []int   `json:"readd"`           // indices of pairs re-added (must be rejected)
+	ReFlip []bool  `json:"reflip"`          // re-add in swapped orientation
+	Filter int     `json:"filter"`          // score threshold of the filter used in the second Piles call
 	Calls  []int   `json:"calls,omitempty"` // a further sequence of Piles calls: 0 nil, 1 score filter, 2 reject all, 3 pile-aware filter
 	// PilePct parametrises a filter that looks at the piles of both images (as
 	// the filter in the package's own TestPiler does): a pair passes when each
